@@ -346,11 +346,18 @@ Definition check_adapt (ts : list N) : list N :=
     else if answerable && negb ((rcodeA =? 0) && (ownA =? 1)) then v_viol 13
     else if negb (silent =? 0) && negb ((nrespB =? 1) && (rcodeB =? SERVFAIL) && (elapsedB <=? 50750 + 1500)) then v_viol 12
     else if 4 <? utxA then v_viol 7
-    (* MODEL: a reply clearly later than the first timeout (>= 3 t0) takes the "too slow" branch *)
-    else if (3 * t0 <=? delay) && answerable then
+    (* MODEL: the estimate is adapted only when at least two other transmissions are outstanding when the
+       answer comes.  The second goes out at t0, the third between 2.5 t0 and 3.5 t0 (back-off with jitter):
+       an answer to the first transmission later than 5 t0 finds both out whatever the jitter and however late
+       the timers fire on a busy machine, and takes the "too slow" branch; one between 2.5 t0 and 5 t0 may or
+       may not (either outcome is the code's); an earlier one leaves the estimate alone *)
+    else if (5 * t0 <=? delay) && answerable then
       (if after =? adapt (t0 * MS) (t0 * MS) (delay * MS) 2 / MS
        then v_ok (if silent =? 0 then 12 else 13)
        else v_diff [adapt (t0 * MS) (t0 * MS) (delay * MS) 2 / MS])
+    else if (5 * t0 <=? 2 * delay) && answerable then
+      (if (after =? t0) || (after =? MAX_TIMEOUT / MS) || (after =? adapt (t0 * MS) (t0 * MS) (delay * MS) 2 / MS)
+       then v_ok 11 else v_diff [t0])
     else if (after =? t0) || (after =? MAX_TIMEOUT / MS) then v_ok 11
     else v_diff [t0]
   | _ => v_bad
